@@ -248,3 +248,54 @@ func (i *Impl) Exec(op hx.Zs) []hx.Zs {
 	return i.W.Exec(op)
 }
 func (i *Impl) Close() { i.W.Close() }
+
+// ---- discovery messages beyond the plain tree announcement (repaired discovery code)
+
+// MixedNotify is a partial notification with two or three entries, each with its own state
+// (added entries carry their features); now and then it names [0] as removed, which the stack
+// refuses (and which ends the processing of the message).
+func (p Peer) MixedNotify(r *hx.Rng) DiscMsg {
+	m := DiscMsg{Dev: p.Dev + 1}
+	n := r.Range(2, 3)
+	for k := 0; k < n; k++ {
+		e := p.Ents[r.Intn(len(p.Ents))]
+		if len(e) == 1 && e[0] == 0 && !r.Chance(1, 6) && len(p.Ents) > 1 {
+			e = p.Ents[1+r.Intn(len(p.Ents)-1)]
+		}
+		state := int64(1 + r.Intn(2))
+		one := p.Msg(state, [][]int64{e})
+		m.Ents = append(m.Ents, one.Ents...)
+		m.Feats = append(m.Feats, one.Feats...)
+	}
+	return m
+}
+
+// PartialReply is a discovery reply that leaves out some of the announced entities (the stack
+// removes them with their subscriptions and bindings) and now and then [0] (which it keeps).
+func (p Peer) PartialReply(r *hx.Rng) DiscMsg {
+	var listed [][]int64
+	for i, e := range p.Ents {
+		if i == 0 {
+			if r.Chance(5, 6) {
+				listed = append(listed, e)
+			}
+			continue
+		}
+		if r.Chance(2, 3) {
+			listed = append(listed, e)
+		}
+	}
+	if listed == nil {
+		listed = [][]int64{}
+	}
+	return p.Msg(0, listed)
+}
+
+// NMAddr is the node-management feature of the peer; before its discovery reply it has no device part.
+func (p Peer) NMAddr(withDev bool) FAddr {
+	a := FAddr{Ent: []int64{0}, Feat: 1}
+	if withDev {
+		a.Dev = p.Dev + 1
+	}
+	return a
+}
